@@ -1,14 +1,141 @@
-(* C20: complete enumerations of the first-player-advantage domain in Coq (vm_compute over Fpa.run). *)
+(* C20: from "the enumeration Fpa.run finds no failing branch" to "every scripted move at every
+   reachable node is legal and self-accepted".  The enumerations themselves (vm_compute) are in
+   FpaEnum*.v, the refutation of the pinned code in FpaPinned.v. *)
 From Coq Require Import NArith ZArith List Bool Lia.
 Require Import Board Move GameOver Tps Symmetry Fpa.
 Import ListNotations.
 
 Definition failing (t : tally) : N := (illegal t + selfrej t + crash t)%N.
 
-(* timing probes *)
-Time Eval vm_compute in (run [] pinned DoubleStack 4 false).
-Time Eval vm_compute in (run [] pinned Cairn 4 false).
-Time Eval vm_compute in (run [] pinned Cairn 4 true).
-Time Eval vm_compute in (run [] repaired Cairn 4 false).
-Time Eval vm_compute in (run [] repaired Cairn 6 false).
-Time Eval vm_compute in (run [] pinned Cairn 6 false).
+Lemma failing_tadd : forall a b, failing (tadd a b) = (failing a + failing b)%N.
+Proof. intros [] []; unfold failing, tadd; cbn. lia. Qed.
+
+Lemma failing_fold : forall (A : Type) (g : A -> tally) l init,
+  failing (fold_left (fun acc c => tadd acc (g c)) l init) = 0%N ->
+  failing init = 0%N /\ forall c, In c l -> failing (g c) = 0%N.
+Proof.
+  intros A g l. induction l as [|a l IH]; intros init H; cbn in H.
+  - split; [exact H|intros c []].
+  - apply IH in H. destruct H as [H1 H2]. rewrite failing_tadd in H1.
+    split; [lia|]. intros c [<-|Hc]; [lia|auto].
+Qed.
+
+(* Position.Move advances the ply by one *)
+Lemma mv_move : forall hsq bc p m q, move_prealloc hsq bc p m = Ok q -> move q = (move p + 1)%Z.
+Proof.
+  intros hsq bc p m q H. unfold move_prealloc in H.
+  repeat (match type of H with
+  | (if ?b then _ else _) = Ok _ => destruct b; try discriminate H
+  | (match ?x with _ => _ end) = Ok _ => destruct x eqn:?; try discriminate H
+  | bind ?r _ = Ok _ => destruct r eqn:?; cbn [bind] in H; try discriminate H
+  | (let '(_, _) := ?x in _) = Ok _ => destruct x eqn:?
+  end).
+  all: injection H as <-; reflexivity.
+Qed.
+
+(* ---- the reachable nodes of the scripted opening, in terms of LegalMove / GetMove / Move ---- *)
+Section Reach.
+Variables (fx : fixes) (v : variant) (botw : bool).
+Let maxp := max_ply_of v.
+
+(* one ply of the opening from (st, p), in the driving order of Friendly.GetMove *)
+Inductive step : fstate * position -> fstate * position -> Prop :=
+| s_free st p m st' q :       (* a ply the bot does not script: any generated, accepted, legal move (either side) *)
+    stops maxp p = false ->
+    (to_move_white p <> botw \/ get_move fx v st p = None) ->
+    In m (all_moves p) -> legal_move fx v st p m = Ok (st', true) -> mv1 p m = Ok q ->
+    step (st, p) (st', q)
+| s_script st p m st' q :     (* a scripted ply that went well *)
+    stops maxp p = false -> to_move_white p = botw ->
+    get_move fx v st p = Some (Ok m) -> mv1 p m = Ok q -> legal_move fx v st p m = Ok (st', true) ->
+    step (st, p) (st', q).
+
+Inductive reach (a : fstate * position) : nat -> fstate * position -> Prop :=
+| r_here : reach a 0 a
+| r_step n b c : reach a n b -> step b c -> reach a (S n) c.
+
+(* the claim at one node: whatever the script answers is a move, legal on the board, accepted by the own check *)
+Definition node_ok (a : fstate * position) : Prop :=
+  let '(st, p) := a in
+  stops maxp p = false -> to_move_white p = botw ->
+  forall r, get_move fx v st p = Some r ->
+  exists m st' q, r = Ok m /\ mv1 p m = Ok q /\ legal_move fx v st p m = Ok (st', true).
+
+Lemma reach_cons : forall a n c, reach a (S n) c -> exists b, step a b /\ reach b n c.
+Proof.
+  intros a n. induction n as [|n IH]; intros c H; inversion H as [|n' b c' Hr Hs]; subst.
+  - inversion Hr; subst. exists c. split; [exact Hs|constructor].
+  - apply IH in Hr. destruct Hr as [b0 [Hs0 Hr0]]. exists b0. split; [exact Hs0|]. econstructor; eauto.
+Qed.
+
+Lemma in_children : forall st p m st' q,
+  In m (all_moves p) -> legal_move fx v st p m = Ok (st', true) -> mv1 p m = Ok q ->
+  In (m, st', q) (children fx v st p).
+Proof.
+  intros st p m st' q Hin Hl Hm. unfold children. apply in_flat_map. exists m. split; [exact Hin|].
+  rewrite Hl, Hm. left; reflexivity.
+Qed.
+
+Lemma eqb_botw : forall p, Bool.eqb (to_move_white p) botw = true <-> to_move_white p = botw.
+Proof. intros p. apply Bool.eqb_true_iff. Qed.
+
+Lemma walk_sound : forall fuel st p, failing (walk fuel fx v botw maxp st p) = 0%N ->
+  forall n c, reach (st, p) n c -> (n < fuel)%nat -> node_ok c.
+Proof.
+  induction fuel as [|f IH]; intros st p Hw n c Hr Hn; [lia|].
+  cbn [walk] in Hw.
+  destruct n as [|n].
+  - (* the node itself *)
+    inversion Hr; subst. intros Hst Htm r Hg. rewrite Hst in Hw.
+    apply eqb_botw in Htm. rewrite Htm in Hw. unfold script_step in Hw. rewrite Hg in Hw.
+    destruct r as [m| |]; [|cbv in Hw; discriminate Hw|cbv in Hw; discriminate Hw].
+    destruct (mv1 p m) as [q| |] eqn:Hm; [|cbv in Hw; discriminate Hw|cbv in Hw; discriminate Hw].
+    destruct (legal_move fx v st p m) as [[st' b]| |] eqn:Hl; [|cbv in Hw; discriminate Hw|cbv in Hw; discriminate Hw].
+    destruct b; [|cbv in Hw; discriminate Hw].
+    exists m, st', q. auto.
+  - apply reach_cons in Hr. destruct Hr as [b [Hs Hr]].
+    inversion Hs as [st0 p0 m st' q Hst Hfree Hin Hl Hm|st0 p0 m st' q Hst Htm Hg Hm Hl]; subst.
+    + rewrite Hst in Hw.
+      assert (Hopp : failing (fold_left (fun acc c => tadd acc (walk f fx v botw maxp (snd (fst c)) (snd c))) (children fx v st p)
+                       {| nodes := 1; scripted := 0; illegal := 0; selfrej := 0; crash := 0 |}) = 0%N).
+      { destruct (Bool.eqb (to_move_white p) botw) eqn:E; [|exact Hw].
+        destruct Hfree as [Hne|Hnone]; [apply eqb_botw in E; contradiction|].
+        unfold script_step in Hw. rewrite Hnone in Hw. exact Hw. }
+      apply failing_fold in Hopp. destruct Hopp as [_ Hall].
+      specialize (Hall (m, st', q) (in_children _ _ _ _ _ Hin Hl Hm)). cbn [fst snd] in Hall.
+      eapply IH; [exact Hall|exact Hr|lia].
+    + rewrite Hst in Hw. apply eqb_botw in Htm. rewrite Htm in Hw.
+      unfold script_step in Hw. rewrite Hg, Hm, Hl in Hw. rewrite failing_tadd in Hw.
+      eapply IH; [|exact Hr|lia]. lia.
+Qed.
+
+(* the ply of a node reached in n steps from ply 0 is n, so no node lies deeper than the script *)
+Lemma step_move : forall st p st' q, step (st, p) (st', q) -> move q = (move p + 1)%Z /\ (move p < maxp)%Z.
+Proof.
+  intros st p st' q H.
+  assert (Hs : stops maxp p = false -> (move p < maxp)%Z).
+  { unfold stops. destruct (maxp <=? move p)%Z eqn:E; [discriminate|]. intros _. apply Z.leb_gt in E. exact E. }
+  inversion H; subst; split; try (eapply mv_move; eassumption); auto.
+Qed.
+
+Lemma reach_move : forall st p n st' q, reach (st, p) n (st', q) -> move q = (move p + Z.of_nat n)%Z.
+Proof.
+  intros st p n. induction n as [|n IH]; intros st' q H; inversion H as [|n' [st1 p1] c Hr Hs]; subst.
+  - lia.
+  - apply IH in Hr. apply step_move in Hs. lia.
+Qed.
+End Reach.
+
+(* ---- lifting a clean enumeration to the statement of the property ---- *)
+Lemma run_clean_sound : forall fx v sz botw,
+  failing (run [] fx v sz botw) = 0%N ->
+  forall n c, reach fx v botw (fstate0, root [] sz) n c -> node_ok fx v botw c.
+Proof.
+  intros fx v sz botw H n [st q] Hr.
+  destruct (Nat.lt_ge_cases n 8) as [Hn|Hn].
+  - eapply walk_sound; [exact H|exact Hr|exact Hn].
+  - (* deeper than any script: the node is past max_ply *)
+    intros Hst. exfalso. apply reach_move in Hr. change (move (root [] sz)) with 0%Z in Hr.
+    unfold stops in Hst. destruct (max_ply_of v <=? move q)%Z eqn:E; [discriminate|]. apply Z.leb_gt in E.
+    assert (max_ply_of v <= 6)%Z by (destruct v; cbn; lia). lia.
+Qed.
